@@ -333,6 +333,49 @@ pub fn boundary_numerics() -> Vec<String> {
     out
 }
 
+/// A look-alike of `expr` with the same non-blank characters but one field boundary moved by one
+/// character and a different amount of white space (`5 12 * * *` -> `51  2 * * *`). Whether it is
+/// valid is for the reference to say. `None` if no boundary can be moved.
+pub fn boundary_shifted(rng: &mut Rng, expr: &str) -> Option<String> {
+    let fields: Vec<String> = expr.split_whitespace().map(|s| s.to_string()).collect();
+    if fields.len() != 5 {
+        return None;
+    }
+    let mut order: Vec<usize> = (0..4).collect();
+    for i in (1..order.len()).rev() {
+        let j = rng.usize(i + 1);
+        order.swap(i, j);
+    }
+    for i in order {
+        let mut f = fields.clone();
+        let left_to_right = rng.chance(1, 2);
+        for dir in [left_to_right, !left_to_right] {
+            let mut g = f.clone();
+            if dir && g[i].chars().count() >= 2 {
+                let c = g[i].pop().unwrap();
+                g[i + 1].insert(0, c);
+            } else if !dir && g[i + 1].chars().count() >= 2 {
+                let c = g[i + 1].remove(0);
+                g[i].push(c);
+            } else {
+                continue;
+            }
+            f = g;
+            // different length: one separator doubled
+            let dbl = rng.usize(4);
+            let mut out = String::new();
+            for (k, fld) in f.iter().enumerate() {
+                if k > 0 {
+                    out.push_str(if k - 1 == dbl { "  " } else { " " });
+                }
+                out.push_str(fld);
+            }
+            return Some(out);
+        }
+    }
+    None
+}
+
 /// One near-progression list for field `idx`: the value set of `*/s` with one element removed,
 /// moved or added, written out as a comma list (what a "this is really */n" fast path would
 /// have to tell apart from the real thing).
